@@ -152,18 +152,22 @@ class InplaceMarker(Marker):
         return ("T", _bump(sample))
 
 
-def _kd_marker(log_path):
+from kappadata.transforms.base.kd_transform import KDTransform  # noqa: E402
+
+
+class KDMarker(KDTransform):
     """the same post-cache transform as a KDTransform subclass (reports is_deterministic=True like every plain KDTransform,
     yet must still be applied on every access - the property does not exempt 'deterministic' transforms)"""
-    from kappadata.transforms.base.kd_transform import KDTransform
 
-    class KDMarker(KDTransform):
-        def __init__(self, path):
-            super().__init__()
-            self._m = Marker(path)
+    def __init__(self, path):
+        super().__init__()
+        self._m = Marker(path)
 
-        def __call__(self, x, ctx=None):
-            return self._m(x)
+    def __call__(self, x, ctx=None):
+        return self._m(x)
+
+
+def _kd_marker(log_path):
     return KDMarker(log_path)
 
 
@@ -211,6 +215,10 @@ def gen_cases(run):
                 ops.append(["iter"])                          # list(cached): legacy __getitem__ iteration protocol, ends with IndexError
             elif r < 0.17:
                 ops.append(["loader", rng.choice([1, 2, 3])])  # one pass of torch DataLoader(cached, batch_size=k) in this process (batched fetch path)
+            elif r < 0.18:
+                # a second handle to the same cache (copy / pickle round trip, what spawn-started workers hold) is created and garbage
+                # collected; or a clear is issued by ANOTHER process (a reader / worker) that then exits
+                ops.append([rng.choice(["handle_copy_gc", "handle_pickle_gc", "clear_in_child"])])
             elif r < 0.20:
                 ops.append(["get_neg", rng.randrange(nkeys)])  # the k-th sample from the end, addressed as cached[-k-1]
             elif r < 0.27:
@@ -267,6 +275,40 @@ import atexit  # noqa: E402
 atexit.register(_drop_pool)
 
 
+def _second_handle(run, cached, kind, step, want, tail_loads, tail_tr, loaded_since_clear):
+    """a second handle to the same cache (copy.copy / pickle round trip - what spawn-started workers hold) reads index 0 and dies.
+    Returns True if a violation was recorded."""
+    import copy
+    import pickle
+    h = hv = None
+    gc.disable()  # the handle stays in the youngest generation until it is collected below
+    try:
+        try:
+            h = copy.copy(cached) if kind == "handle_copy_gc" else pickle.loads(pickle.dumps(cached))
+            hv = h[0]
+        except Exception as e:
+            run.violation(f"seq:second-handle-raises:{type(e).__name__}", f"step {step}: {kind}: a second handle to the cache raised {type(e).__name__}: {e}")
+            return True
+        run.count("second_handles_checked")
+        if _digest(hv) != want[0]:
+            run.violation("seq:value", f"step {step}: a {kind[7:-3]} of the cached dataset returns {repr(hv)[:120]} for index 0, not transform(base[0])")
+            return True
+        new_loads = tail_loads.new()
+        tail_tr.new()
+        if 0 in loaded_since_clear and new_loads:
+            run.violation("seq:redundant-load", f"step {step}: reading index 0 through a second handle ({kind}) loaded {[l['i'] for l in new_loads]} although it was loaded since the last clear")
+            return True
+        loaded_since_clear.add(0)
+        return False
+    finally:
+        h = hv = None  # the second handle dies: this is not a clear
+        # collect it NOW (youngest generation only; a full collection costs 0.2 s with torch loaded): an unpickled proxy shares its
+        # thread-local connection with the original proxy, and CPython closes that connection when the copy is finalised - if the
+        # cyclic GC did that in the middle of a later manager call, the harness would manufacture a failure the library has no part in
+        gc.collect(0)
+        gc.enable()
+
+
 def run_case(run, spec):
     if spec["kind"] == "conc":
         return _run_concurrent(run, spec)
@@ -293,6 +335,28 @@ def run_case(run, spec):
             cached.dispose()
             loaded_since_clear = set()
             run.count("clears_observed")
+            continue
+        if op[0] in ("handle_copy_gc", "handle_pickle_gc"):
+            bad = _second_handle(run, cached, op[0], step, want, tail_loads, tail_tr, loaded_since_clear)
+            if bad:
+                return
+            continue
+        if op[0] == "clear_in_child":
+            pid = os.fork()
+            if pid == 0:
+                code = 0
+                try:
+                    cached.dispose()
+                except BaseException:
+                    code = 7
+                os._exit(code)
+            _, status = os.waitpid(pid, 0)
+            if status != 0:
+                run.violation("seq:clear-in-child-fails", f"step {step}: dispose() issued by a forked reader process failed (exit status {status})")
+                return
+            loaded_since_clear = set()
+            run.count("clears_observed")
+            run.count("clears_issued_by_another_process")
             continue
         if op[0] == "oob":
             j = 8 + op[1]
